@@ -78,6 +78,10 @@ def check_ctor(model, rep, sx):
                    f'completing path (proved: {got})', detail=f'every completing path carries value {">" if want == "pos" else ">="} 0',
                    loc=m.loc)
         rep.inspect()
+        if ok:
+            rep.decide(got == want, 'C19.boundary', f'{kind}.__init__:boundary',
+                       f'the constructor also rejects the admissible boundary value 0 of a non-negative kind (proved on completing paths: {got})',
+                       loc=m.loc)
     # unconstrained kinds must not be constrained by accident? not part of the property.
 
 
